@@ -3,6 +3,7 @@ package main
 import (
 	"fmt"
 	"go/types"
+	"os"
 	"strings"
 
 	"golang.org/x/tools/go/ssa"
@@ -93,6 +94,9 @@ func (fr *Frame) bitsWrite(st *State, w *Sc, v, k string, in ssa.Instruction) (V
 	r.assumed["model:astikit.BitsWriter exact mode (sink writes succeed; I/O failures are covered by C18's fault-mode run)"] = true
 	if strings.HasPrefix(clen, "#x") && strings.HasPrefix(k, "#x") {
 		return fr.bitsWriteConst(st, w, v, cache, clen, k, sink, stT, fCache, fLen)
+	}
+	if os.Getenv("GOVC_DEBUG_BW") != "" && r.dry == 0 {
+		fmt.Fprintf(os.Stderr, "general bit-write path at %s in %s: clen=%s k=%s\n", posLabelIn(r, in), fr.fn.Name(), clen, k)
 	}
 	// 72-bit arithmetic
 	z := func(t string, from int) string { return fmt.Sprintf("((_ zero_extend %d) %s)", 72-from, t) }
@@ -222,9 +226,9 @@ func (fr *Frame) bytesWrite(st *State, w *Sc, s *SliceV, total string, pad strin
 	hD := r.heap.get(st, compSinkData, sortSinkData)
 	hF := r.heap.get(st, compSinkFails, sortSinkN)
 	n0 := c.define("bws.n0", sBV(64), sel(hN, sink.Ref))
-	ok := c.fresh("bws.ok", sBool)
-	if !r.faults {
-		r.assume(st, ok)
+	ok := "true"
+	if r.faults {
+		ok = c.fresh("bws.ok", sBool)
 	}
 	bufTag := r.tagOf(types.NewPointer(bytesBufferType(r)))
 	r.assume(st, implies(eq(sink.Tag, bufTag), ok))
@@ -244,6 +248,9 @@ func (fr *Frame) bytesWrite(st *State, w *Sc, s *SliceV, total string, pad strin
 	r.heap.set(st, compSinkN, sortSinkN, sto(hN, sink.Ref, ite(ok, "(bvadd "+n0+" "+total+")", "(bvadd "+n0+" "+partial+")")), sink.Ref)
 	r.heap.set(st, compSinkData, sortSinkData, sto(hD, sink.Ref, nd), sink.Ref)
 	r.heap.set(st, compSinkFails, sortSinkN, sto(hF, sink.Ref, ite(ok, sel(hF, sink.Ref), "(bvadd "+sel(hF, sink.Ref)+" #x0000000000000001)")), sink.Ref)
+	if ok == "true" {
+		return &IfaceV{Tag: bvLit(0, 16), Ref: refLit(0)}, nil
+	}
 	return fr.bwError(st, ok), nil
 }
 
